@@ -50,17 +50,19 @@ var osWrap = map[string]string{
 }
 
 type report struct {
-	Files      int            `json:"files"`
-	GoStmts    []string       `json:"go_stmts"`
-	MapRanges  []string       `json:"map_ranges"`
-	OsCalls    map[string]int `json:"os_calls"`
-	SyncImport []string       `json:"sync_imports"`
-	Yields     int            `json:"yields"`
-	RMWSplits  int            `json:"rmw_splits"`
-	MapWrites  int            `json:"map_writes_instrumented"`
-	MapReads   int            `json:"map_reads_instrumented"`
-	Channels   []string       `json:"channel_ops"` // not simulated: reported so that the harness can warn
-	Skipped    []string       `json:"skipped"`
+	Files       int            `json:"files"`
+	GoStmts     []string       `json:"go_stmts"`
+	MapRanges   []string       `json:"map_ranges"`
+	OsCalls     map[string]int `json:"os_calls"`
+	SyncImport  []string       `json:"sync_imports"`
+	Yields      int            `json:"yields"`
+	RMWSplits   int            `json:"rmw_splits"`
+	MapWrites   int            `json:"map_writes_instrumented"`
+	MapReads    int            `json:"map_reads_instrumented"`
+	PlainWrites int            `json:"plain_writes_instrumented"`
+	FieldReads  int            `json:"guarded_field_reads_instrumented"`
+	Channels    []string       `json:"channel_ops"` // not simulated: reported so that the harness can warn
+	Skipped     []string       `json:"skipped"`
 }
 
 func main() {
@@ -332,6 +334,44 @@ func shared(info *types.Info, e ast.Expr) bool {
 	return false
 }
 
+// guardedField reports whether e selects a data field of a struct type that
+// itself holds a synchronisation primitive (the field is then part of state
+// the code declares to be shared between goroutines).
+func guardedField(info *types.Info, e *ast.SelectorExpr) bool {
+	sel, ok := info.Selections[e]
+	if !ok || sel.Kind() != types.FieldVal || len(sel.Index()) != 1 {
+		return false
+	}
+	t := sel.Recv()
+	if p, isPtr := t.Underlying().(*types.Pointer); isPtr {
+		t = p.Elem()
+	}
+	st, ok := t.Underlying().(*types.Struct)
+	if !ok {
+		return false
+	}
+	isSync := func(ft types.Type) bool {
+		if p, isPtr := ft.(*types.Pointer); isPtr {
+			ft = p.Elem()
+		}
+		n, ok := ft.(*types.Named)
+		if !ok || n.Obj().Pkg() == nil {
+			return false
+		}
+		pp := n.Obj().Pkg().Path()
+		return pp == "sync" || pp == "sync/atomic" || strings.HasSuffix(pp, "/zsim/sync") || strings.HasSuffix(pp, "/zsim/sync/atomic")
+	}
+	if isSync(sel.Obj().Type()) {
+		return false // the primitive itself
+	}
+	for i := 0; i < st.NumFields(); i++ {
+		if isSync(st.Field(i).Type()) {
+			return true
+		}
+	}
+	return false
+}
+
 func src(fset *token.FileSet, e ast.Node) string {
 	var b bytes.Buffer
 	pos, end := fset.Position(e.Pos()), fset.Position(e.End())
@@ -416,6 +456,130 @@ func yieldList(fset *token.FileSet, info *types.Info, list []ast.Stmt, fe *fileE
 					rep.MapReads++
 				}
 				fe.edits = append(fe.edits, edit{off(st.Pos()), off(st.Pos()), b.String(), 6})
+			}
+		}
+
+		// unconditional reads of fields of lock-carrying structs (simrt.RD)
+		{
+			var heads []ast.Node
+			switch x := st.(type) {
+			case *ast.IfStmt:
+				if x.Init != nil {
+					heads = []ast.Node{x.Init}
+				} else {
+					heads = []ast.Node{x.Cond}
+				}
+			case *ast.ForStmt:
+				if x.Init != nil {
+					heads = []ast.Node{x.Init}
+				}
+			case *ast.RangeStmt:
+				heads = []ast.Node{x.X}
+			case *ast.SwitchStmt:
+				if x.Init != nil {
+					heads = []ast.Node{x.Init}
+				} else if x.Tag != nil {
+					heads = []ast.Node{x.Tag}
+				}
+			case *ast.TypeSwitchStmt:
+				if x.Init != nil {
+					heads = []ast.Node{x.Init}
+				} else {
+					heads = []ast.Node{x.Assign}
+				}
+			case *ast.AssignStmt:
+				for _, r := range x.Rhs {
+					heads = append(heads, r)
+				}
+				if x.Tok != token.DEFINE {
+					for _, l := range x.Lhs {
+						// the location written is not read, what leads to it is
+						switch le := l.(type) {
+						case *ast.SelectorExpr:
+							heads = append(heads, le.X)
+						case *ast.IndexExpr:
+							heads = append(heads, le.X, le.Index)
+						case *ast.StarExpr:
+							heads = append(heads, le.X)
+						}
+					}
+				}
+			case *ast.ExprStmt, *ast.ReturnStmt, *ast.SendStmt, *ast.DeclStmt, *ast.GoStmt, *ast.DeferStmt:
+				heads = []ast.Node{st}
+			}
+			seen := map[string]bool{}
+			var order []string
+			var visit func(n ast.Node)
+			visit = func(n ast.Node) {
+				if n == nil || (reflect.ValueOf(n).Kind() == reflect.Pointer && reflect.ValueOf(n).IsNil()) {
+					return
+				}
+				ast.Inspect(n, func(c ast.Node) bool {
+					switch e := c.(type) {
+					case *ast.FuncLit:
+						return false
+					case *ast.BinaryExpr:
+						if e.Op == token.LAND || e.Op == token.LOR {
+							visit(e.X) // the right operand is evaluated conditionally
+							return false
+						}
+					case *ast.UnaryExpr:
+						if e.Op == token.AND {
+							// &x.f takes an address, it does not read x.f
+							if se, ok := e.X.(*ast.SelectorExpr); ok {
+								visit(se.X)
+								return false
+							}
+						}
+					case *ast.SelectorExpr:
+						if guardedField(info, e) && pure(e) && addressable(info, e) {
+							t := src(fset, e)
+							if t != "" && !strings.Contains(t, "\n") && !seen[t] {
+								seen[t] = true
+								order = append(order, t)
+							}
+						}
+					}
+					return true
+				})
+			}
+			for _, h := range heads {
+				visit(h)
+			}
+			if len(order) > 0 {
+				pos := fset.Position(st.Pos())
+				var b strings.Builder
+				for _, t := range order {
+					fmt.Fprintf(&b, "simrt.RD(&%s, %q); ", t, fmt.Sprintf("%s:%d", filepath.Base(pos.Filename), pos.Line))
+					rep.FieldReads++
+				}
+				fe.edits = append(fe.edits, edit{off(st.Pos()), off(st.Pos()), b.String(), 8})
+			}
+		}
+
+		// plain assignments to shared locations: write-write race check (simrt.WR)
+		if as, ok := st.(*ast.AssignStmt); ok && as.Tok != token.DEFINE {
+			pos := fset.Position(st.Pos())
+			var b strings.Builder
+			for _, l := range as.Lhs {
+				if id, isId := l.(*ast.Ident); isId && id.Name == "_" {
+					continue
+				}
+				if _, isMap := isMapIndex(info, l); isMap {
+					continue
+				}
+				if !shared(info, l) || !pure(l) || !addressable(info, l) {
+					continue
+				}
+				t := src(fset, l)
+				if t == "" || strings.Contains(t, "\n") {
+					continue
+				}
+				fmt.Fprintf(&b, "simrt.WR(&%s, %q); ", t, fmt.Sprintf("%s:%d", filepath.Base(pos.Filename), pos.Line))
+				rep.PlainWrites++
+			}
+			if b.Len() > 0 {
+				fe.edits = append(fe.edits, edit{off(st.Pos()), off(st.Pos()), b.String(), 7})
 			}
 		}
 
